@@ -46,12 +46,13 @@ def judge(ctx, items, res, driver, case):
                               % (it['text'][:50], mn, w, ' / '.join(rv32.text16(*rv32.decode16(h)) for h in E[w][:2])), driver, case,
                               expected='16-bit encoding', observed=c.out[cur:cur + 4])
     ctx.count('eligible_units', elig)
+    dec = ':decreasing-expression' if any(progs.spec_class(it).startswith('rsub') for it in items) else ''
     if len(c.out) > len(u.out):
-        ctx.violation('%s:program:grew' % PROP, 'compressed output is %d bytes, uncompressed %d' % (len(c.out), len(u.out)), driver, case,
+        ctx.violation('%s:program:grew%s' % (PROP, dec), 'compressed output is %d bytes, uncompressed %d' % (len(c.out), len(u.out)), driver, case,
                       expected='<= %d' % len(u.out), observed=len(c.out))
     for name, off in wu.labels.items():
         if wc.labels.get(name, 0) > off:
-            ctx.violation('%s:label:grew' % PROP, 'label %s at %#x with -c, %#x without' % (name, wc.labels[name], off), driver, case, expected='<= %d' % off, observed=wc.labels[name])
+            ctx.violation('%s:label:grew%s' % (PROP, dec), 'label %s at %#x with -c, %#x without' % (name, wc.labels[name], off), driver, case, expected='<= %d' % off, observed=wc.labels[name])
     if wu.labels != u.labels or wc.labels != c.labels:
         ctx.count('other:labels')
 
@@ -63,7 +64,7 @@ def nontrivial(items, res):
 
 def alphabet(tier):
     from mc.props import c04
-    return c04.alphabet(tier)
+    return c04.alphabet(tier) + progs.instantiate(progs.pick(progs.NEGARITH, 'liNeg') + (progs.pick(progs.NEGARITH, 'liNeg9') if tier == 'thorough' else []), ['A'])
 
 
 def depth(tier):
